@@ -3,6 +3,7 @@
 package syntax
 
 import (
+	"math"
 	"sort"
 	"strconv"
 	"strings"
@@ -272,6 +273,11 @@ func (e *IntExp) String() string {
 }
 
 func (e *FloatExp) format(w stringWriter, _ string) {
+	if e.Value == 0 && math.Signbit(e.Value) {
+		// "-0" would be read back as an integer, which has no sign for zero.
+		mustWriteString(w, "-0.0")
+		return
+	}
 	var buf [68]byte
 	mustWrite(w, strconv.AppendFloat(buf[:0], e.Value, 'g', -1, 64))
 }
